@@ -56,6 +56,7 @@ theorem enabled_iff (c : Cfg) (s : State) (u : Tid) : (step c s u).isSome ↔ en
   case wBody => split <;> simp
   case eTestW => split <;> simp
   case cPrune => split <;> simp
+  case rdPick => split <;> (try split) <;> simp
   case ePop => cases s.waiters <;> simp
   case eSet => cases s.writeEvent <;> simp
   all_goals simp
